@@ -1,4 +1,5 @@
 import FmpRpc.Proofs.TransportInv
+import FmpRpc.Proofs.TransportInvBK
 /-
   C10 — no caller or closer blocks for ever when the connection dies or is
   closed.  "Bounded time" is bounded model steps: every wait has an enabled
@@ -22,33 +23,45 @@ theorem stopped_call_not_blocked (s : St) (hr : Reachable s) (hst : Stopped s) (
     (∀ x, (s.callers c).pc = .sel1 x → (step s (.cSel1Stop c)).isSome) ∧
     ((s.callers c).pc = .sel2 → (step s (.cSel2Stop c)).isSome) ∧
     (∀ y, (s.callers c).pc = .cHand y → (step s (.cCancelDone c)).isSome) := by
-  sorry
+  obtain ⟨hd, hr', he⟩ := hst
+  refine ⟨fun x h => ?_, fun x h => ?_, fun h => ?_, fun y h => ?_⟩ <;> simp [step, h, hd, he]
 
 theorem stopped_notify_not_blocked (s : St) (hr : Reachable s) (hst : Stopped s) (n : Nat) :
     (∀ x, (s.notifiers n).pc = .hand x → (step s (.nHandDone n)).isSome) ∧
     (∀ x, (s.notifiers n).pc = .sel x → (step s (.nSelStop n)).isSome) := by
-  sorry
+  obtain ⟨hd, hr', he⟩ := hst
+  refine ⟨fun x h => ?_, fun x h => ?_⟩ <;> simp [step, h, hd, he]
 
 /-- A reply blocked in its hand-off leaves through the closed encoder. -/
 theorem stopped_reply_not_blocked (s : St) (hr : Reachable s) (hst : Stopped s) (h : Nat) :
     ∀ x, (s.handlers h).pc = .rHand x → (step s (.hHandDone h)).isSome := by
-  sorry
+  obtain ⟨hd, hr', he⟩ := hst
+  intro x h
+  simp [step, h, he]
 
 /-- What a stopped call returns: io.EOF (or what it already had). -/
 theorem stop_returns_eof (s s' : St) (c : Nat) (h : step s (.cSel2Stop c) = some s') :
     (s'.callers c).pc = .fin (.err .eof) := by
-  sorry
+  simp only [step] at h
+  split at h
+  · injection h with h; subst h
+    simp [returnCaller, setCaller]
+  · cases h
 
 /-- Once the transport has stopped, further calls and notifications fail
     immediately with io.EOF without touching the writer or the tables. -/
 theorem after_stop_eof (s s' : St) (c : Nat) (hstop : s.stopCh = true) (h : step s (.cBegin c) = some s') :
     (s'.callers c).pc = .ret (.err .eof) ∧ s'.pending = s.pending ∧ s'.sends = s.sends ∧ s'.w = s.w ∧
     s'.nextSeq = s.nextSeq := by
-  sorry
+  simp only [step] at h
+  (repeat' split at h) <;>
+    first | (cases h; done) | (injection h with h; subst h; simp_all [setCaller, log])
 
 theorem after_stop_eof_notify (s s' : St) (n : Nat) (hstop : s.stopCh = true) (h : step s (.nBegin n) = some s') :
     (s'.notifiers n).pc = .ret (.err .eof) ∧ s'.sends = s.sends ∧ s'.w = s.w := by
-  sorry
+  simp only [step] at h
+  (repeat' split at h) <;>
+    first | (cases h; done) | (injection h with h; subst h; simp_all [setNotifier, log])
 
 /-- steps of the writer goroutine -/
 def writerActs (s : St) : List Act :=
@@ -66,13 +79,30 @@ def writerActs (s : St) : List Act :=
 theorem close_waits_only_for_live_goroutines (s : St) (hr : Reachable s) (k : Nat) :
     ((s.closers k).pc = .waitTask → s.rClosed = true ∨ (step s .tStop).isSome) ∧
     ((s.closers k).pc = .waitWriter → s.encClosed = true ∨ ∃ a ∈ writerActs s, (step s a).isSome) := by
-  sorry
+  have hi := KInv_reachable s hr
+  refine ⟨fun h => ?_, fun h => ?_⟩
+  · have h1 := hi.body k (by simp [h, bodyPc])
+    have h2 : s.rStop = true := hi.fR.mpr (by simp [lvl, h1, h, klevel])
+    have h3 := hi.rcT
+    cases ht : s.taskLoop
+    · left; simp [h3, ht]
+    · right; simp [step, ht, h2]
+  · have h1 := hi.body k (by simp [h, bodyPc])
+    have h2 : s.encDone = true := hi.fEnc.mpr (by simp [lvl, h1, h, klevel])
+    have h3 : s.connClosed = true := hi.fConn.mpr (by simp [lvl, h1, h, klevel])
+    cases hw : s.w
+    · right; exact ⟨.wStop, by simp [writerActs, hw], by simp [step, hw, h2]⟩
+    · right; exact ⟨.wNotify, by simp [writerActs, hw], by simp only [step, hw]; split <;> simp⟩
+    · right; exact ⟨.wWrite false, by simp [writerActs, hw], by simp [step, hw]⟩
+    · right; exact ⟨.wDone, by simp [writerActs, hw], by simp [step, hw]⟩
+    · left; exact hi.ecW.mpr hw
 
 /-- Every step of `Close` other than the two waits is always enabled. -/
 theorem close_steps_enabled (s : St) (k : Nat) (pc : KPc) (h : (s.closers k).pc = pc)
     (hp : pc = .setErr ∨ pc = .stop ∨ pc = .dstop ∨ pc = .rstop ∨ pc = .encClose ∨ pc = .connClose) :
     (step s (.kStep k)).isSome := by
-  sorry
+  subst h
+  rcases hp with h | h | h | h | h | h <;> simp [step, h]
 
 /-- Repeated / raced Close: only one closer is ever inside the once; the
     others wait for it and return when it is done; a Close after that returns
@@ -82,6 +112,13 @@ theorem close_idempotent (s : St) (hr : Reachable s) :
     (∀ k1 k2, s.once = .running k1 → (s.closers k2).pc ∈
         [KPc.setErr, .stop, .dstop, .rstop, .waitTask, .encClose, .connClose, .waitWriter] → k2 = k1) ∧
     (s.once = .done → ∀ k, (s.closers k).pc = .enter → ∃ s', step s (.kEnter k) = some s' ∧ (s'.closers k).pc = .done) := by
-  sorry
+  have hi := KInv_reachable s hr
+  refine ⟨fun k h => hi.waitOnce k h, fun k1 k2 h1 h2 => ?_, fun hd k h => ?_⟩
+  · have h3 := hi.body k2 (by
+      simp only [List.mem_cons, List.mem_nil_iff, or_false] at h2
+      rcases h2 with h | h | h | h | h | h | h | h <;> simp [h, bodyPc])
+    rw [h1] at h3
+    injection h3 with h3; exact h3.symm
+  · simp [step, h, hd, setCloser]
 
 end FmpRpc.C10
